@@ -210,6 +210,13 @@ def main(argv):
     for o in obligations:
         if o not in discharged:
             ctx.break_("theorem:" + o, audit.get(o, {}).get("error") or "module did not build")
+    if tier == "thorough" and built_modules:
+        # independent re-check of the compiled property modules (and the proof modules they name) by leanchecker
+        extra = list(getattr(mod, "LEANCHECK_MODULES", []))
+        rc_, out_, secs_ = leanbuild.leanchecker(built_modules + extra)
+        ctx.extra["leanchecker"] = {"modules": built_modules + extra, "rc": rc_, "seconds": round(secs_, 1)}
+        if rc_ != 0:
+            ctx.break_("leanchecker", out_[-600:])
     hits = leanbuild.forbidden_words()
     if hits:
         ctx.break_("forbidden-words", json.dumps(hits[:10]))
